@@ -52,6 +52,12 @@ func sameSlice[T any](a, b []T) bool {
 // elems names the backing array of a slice in assigns clauses.
 func elems[T any](s []T) []T { return s }
 
+// inKeys: membership of key bytes in a key filter.
+func inKeys(m map[string]struct{}, k []byte) bool {
+	_, ok := m[string(k)]
+	return ok
+}
+
 // ---- S2: tape model ----
 
 func tagOf(v uint64) Tag    { return Tag(v >> 56) }
@@ -527,4 +533,29 @@ func wfExtents(T []uint64) bool {
 //@   decreases 1 nSkips - i
 //@   invariant 2 0 <= i && i <= nSkips && nSkips <= len(dst.Tape) && 0 <= off && off <= len(dst.Tape) && off+(nSkips-i) <= len(dst.Tape)
 //@   decreases 2 nSkips - i
+//@   safe
+
+// ---------------------------------------------------------------------------
+// Filtered iteration (C12): the callback only ever sees members admitted by the filter
+
+//@ func (*Object).ForEach variant filter
+//@   props C12
+//@   requires 0 <= o.off && o.off <= 1<<57 && o.tape.Strings != nil
+//@   invariant 0 iterOK(&tmp) && tmp.tape.Strings != nil
+//@   callreq fn infilter: len(onlyKeys) == 0 || inKeys(onlyKeys, name)
+
+//@ func (*Object).DeleteElems variant filter
+//@   props C12 C14
+//@   requires 0 <= o.off && o.off <= 1<<57 && o.tape.Strings != nil && wfExtents(o.tape.Tape)
+//@   invariant 0 iterOK(&tmp) && tmp.tape.Strings != nil && sameSlice(tmp.tape.Tape, o.tape.Tape) && o.off <= tmp.off+tmp.addNext
+//@   invariant 0 wf: wfExtents(o.tape.Tape)
+//@   invariant 0 onlynops: forall(0, len(o.tape.Tape), func(j int) bool { return o.tape.Tape[j] == old(o.tape.Tape)[j] || (tagOf(o.tape.Tape[j]) == TagNop && j >= o.off) })
+//@   decreases 0 2*(len(tmp.tape.Tape) - tmp.off - tmp.addNext) + ite(tmp.t == TagEnd, 0, 1)
+//@   invariant 1 startO <= i && i <= end && end <= len(o.tape.Tape) && o.off <= startO && skip == uint64(end-i) && sameSlice(tmp.tape.Tape, o.tape.Tape) && iterOK(&tmp) && tmp.tape.Strings != nil
+//@   invariant 1 wf: wfExtents(o.tape.Tape)
+//@   invariant 1 filled: forall(startO, i, func(k int) bool { return o.tape.Tape[k] == uint64(TagNop)<<56|uint64(end-k) })
+//@   invariant 1 onlynops: forall(0, len(o.tape.Tape), func(j int) bool { return o.tape.Tape[j] == old(o.tape.Tape)[j] || (tagOf(o.tape.Tape[j]) == TagNop && j >= o.off) })
+//@   decreases 1 end - i
+//@   callreq fn infilter: len(onlyKeys) == 0 || inKeys(onlyKeys, name)
+//@   ensures onlynops: forall(0, len(o.tape.Tape), func(j int) bool { return o.tape.Tape[j] == old(o.tape.Tape)[j] || (tagOf(o.tape.Tape[j]) == TagNop && j >= o.off) })
 //@   safe
